@@ -156,6 +156,7 @@ func (Engine) Run(c *simkit.Choices, x *simkit.Ctx) *simkit.Violation {
 	refParse := r.exec("parse", nil, nil, false)
 	refWrite := r.exec("write", nil, nil, false)
 	st.Eval(2)
+	x.ObserveStr(simkit.EventsString(refParse.events, 0) + refParse.verdict())
 
 	compare := func(ref, got *outcome, s *Scenario) *simkit.Violation {
 		if ref.rejected() != got.rejected() {
